@@ -82,6 +82,10 @@ func Load(patterns ...string) (*World, error) {
 	for _, p := range prog.AllPackages() {
 		w.SSA[p.Pkg.Path()] = p
 	}
+	curAliases = nil
+	if os.Getenv("VCHECK_NO_ALIAS") == "" {
+		curAliases = buildAliases(w)
+	}
 	return w, nil
 }
 
@@ -103,6 +107,9 @@ func (w *World) Func(pkg, recv, name string) *ssa.Function {
 	if p == nil {
 		return nil
 	}
+	// rule tables use reference names: translate to the names of the current tree
+	name = curAliases.curFuncName(pkg, recv, name)
+	recv = curAliases.curTypeName(pkg, recv)
 	if recv == "" {
 		return p.Func(name)
 	}
@@ -219,6 +226,18 @@ func shortFn(fn *ssa.Function) string {
 		return "<nil>"
 	}
 	s := fn.String()
+	if curAliases != nil && (len(curAliases.funcRev) > 0 || len(curAliases.typeRev) > 0) {
+		root, suffix := fn, ""
+		for root.Parent() != nil {
+			root = root.Parent()
+		}
+		if root != fn {
+			suffix = strings.TrimPrefix(fn.String(), root.String())
+		}
+		if f, ok := root.Object().(*types.Func); ok {
+			s = refFuncFullName(f) + suffix
+		}
+	}
 	s = strings.ReplaceAll(s, modPath+"/", "")
 	s = strings.ReplaceAll(s, "github.com/heimdalr/", "")
 	s = strings.ReplaceAll(s, "github.com/dgraph-io/badger/v4", "badger")
